@@ -154,7 +154,7 @@ META.update({
                "and merging again changes nothing. The break point of a merged cycle is not pinned."),
         note="Reference implementation: bounded/c14.py." + B_NOTE,
         technique="bounded check of linear_paths/merge_linear_paths against a reference implementation on the text",
-        assumptions=["graphs of bounded/c14.py (VERIF_SEED)", "GFA1 graphs only"]),
+        assumptions=["graphs of bounded/c14.py (VERIF_SEED)", "GFA2: only as the image of GFA1 graphs with match-only CIGARs (differential against the GFA1 merge)"]),
     "C15": dict(
         built=True, bounded=True, level="exploration", tierP=False, min_obligations=0, design="§6 C15",
         claim=("BOUNDED: seeded GFA1 graphs, target segment named A / A*2 / X*3 with or without counts, 0-5 links and containments (self-links, hairpins), factor -1..4, every distribution policy, given or "
@@ -163,7 +163,7 @@ META.update({
                "removal in the text model, a negative factor is refused without change; the rest of the graph is untouched; WF and UNIQ hold."),
         note="Reference model: bounded/c15.py. _auto_select_distribute_end is additionally under PyVC contract (contracts/c15.py)." + B_NOTE,
         technique="bounded check of multiply against a reference model on the text; " + TECH_P + " for the end-selection kernel",
-        assumptions=["graphs of bounded/c15.py (VERIF_SEED)", "GFA1 graphs only"]),
+        assumptions=["graphs of bounded/c15.py (VERIF_SEED)", "GFA2 graphs: copies and edges only (no distribution oracle); internal alignments are outside the property"]),
     "C17": dict(
         built=True, bounded=True, level="exploration", tierP=False, min_obligations=0, design="§6 C17",
         claim=("BOUNDED: seeded GFA2 graphs over 4 segments and 1-5 of 7 edges with 1-2 O groups (walks with omitted edges/segments, random item lists, nested groups with +/-) and 0-2 U groups, lines in a "
@@ -210,6 +210,31 @@ _P = {
     "C20": (30, "PROVED (all integer ranges): integer_type returns the smallest subtype of the right signedness that holds [lo,hi] and raises ValueError iff none does; Multiline._split keeps the declared datatype of "
                 "every header tag; FieldData.delete forgets the datatype of a deleted tag. "),
 }
+# contracts added in parts 3-5 (text appended to the PROVED part of the claim)
+_P_MORE = {
+    "C01": "PROVED: Writer.to_list writes every positional field and every tag in order, a field that cannot be encoded as its fallback text with the `# INVALID` marker (two loop invariants); Writer.field_to_s encodes a value with the datatype of its field; FieldArray._vpush / Multiline.add keep the datatype of a header tag given on several lines; Segment._subclass tells the segment syntax from the fields in front of the tags, and its tag test accepts every tag of every datatype (regex inclusion). ",
+    "C02": "PROVED: Disconnection.disconnect performs its seven steps in the order that keeps the registry and the collections consistent, _disconnect_dependent_lines visits every dependant of every declared collection; the instance replaced by _substitute_virtual_line is left detached (no owner, no share in the adopted collections). ",
+    "C03": "PROVED: Link.is_compatible / _direct / _complement are the stated Boolean functions (an unspecified overlap on EITHER side matches), so that a path and its link meet in both arrival orders; the tags of group lines sharing an identifier are united with their datatypes whatever the order. ",
+    "C04": "PROVED: validate_interval (E and F lines, connected or not) raises iff begin > end or `$` is misused, and the record-specific validation of E and F lines applies it to exactly their two intervals; the Field_* contracts pin every datatype with a grammar on ALL strings (a value followed by a newline is refused). ",
+    "C05": "PROVED: disconnect / _disconnect_dependent_lines (order of the steps; every dependant of every declared collection, each once). ",
+    "C07": "PROVED: validate_interval raises gfapy errors only; the Field_* contracts hold for every string. ",
+    "C08": "PROVED: Multiplication.multiply checks requested copy names (count, names carried by or referred to by a line, repeats) before anything is changed, and raises nothing afterwards; FieldArray._vpush / Multiline.add refuse a contradicting header value before writing; the tag loops of SameID write nothing before the check has passed. ",
+    "C09": "PROVED: Finders._search_duplicate finds the line an arriving line collides with by record type and identifier; the instance replaced by a later line is detached, so that renaming it cannot touch the registry. ",
+    "C12": "PROVED: Link.is_compatible / _direct / _complement; Finders._search_duplicate hands a link to the link search. ",
+    "C13": "PROVED: Segment._subclass: GFA1 syntax iff two fields precede the maximal run of tag-looking fields, GFA2 iff three, FormatError otherwise (descending loop, all numbers of fields), and its tag test accepts the tags of every datatype A i f Z J H B. ",
+    "C14": "PROVED: Link.is_compatible / _direct / _complement (the link a path step asks for is found whatever side leaves the overlap unspecified). ",
+    "C15": "PROVED: Multiplication.multiply as orchestrator, for every factor, list of copy names and distribution setting: factor < 0 refused, 0 = one removal, 1 = nothing, k >= 2 = one division of the counts by k, k-1 clones named by the requested (checked) or computed names in order, one distribution iff a policy is given (two loop invariants; callees as ghost events, see assumptions); __divide_counts sets each of KC/RC/FC that the line carries once to value div factor. ",
+    "C16": "PROVED: n_dovetails, n_containments, n_internals = (sum over the segments of the sizes of the corresponding collections) div 2, n_dead_ends = number of empty dovetail collections (loop invariants over a recursive sum, all numbers of segments); the sum is twice the number of records by the double-counting lemma collections_sum_twice (Lean), given the reference-graph invariant of C02. ",
+    "C17": "PROVED: the tag loops of SameID: a tag the new line does not define is imported with the stored value under the stored DATATYPE (declared before the value is set), a tag both define must agree (false values are values), all numbers of tags. ",
+    "C18": "PROVED: Writer.field_to_s: at level >= 2 the text that is written has been validated whatever the stored value was (text or decoded value); Writer.to_list marks a line with an unwritable field; FieldData._set_existing_field validates at level 3 before storing. ",
+    "C19": "PROVED: Cloning.clone copies every field by kind (reference -> identifier text, JSON -> round trip, array / list / text / position -> fresh object; loop invariant over all fields), hands the copy to the constructor with version and dialect of the original, gives the clone a datatype table of its own and neither owner nor collections. ",
+    "C20": "PROVED: _set_existing_field drops the datatype of a tag exactly when None is assigned to a tag that has a value; Writer.field_to_s / to_list; DeleteTag for four receiver classes. ",
+}
+for _p, _t in _P_MORE.items():
+    if _p in _P:
+        _P[_p] = (_P[_p][0], _P[_p][1] + _t)
+    else:
+        META[_p]["claim"] = _t + META[_p]["claim"]          # (C04, C07: tier P from the start; floors and technique as declared above)
 for _p, (_n, _txt) in _P.items():
     META[_p]["tierP"] = True
     META[_p]["min_obligations"] = _n
@@ -217,3 +242,9 @@ for _p, (_n, _txt) in _P.items():
         META[_p]["level"] = "other"
     META[_p]["claim"] = _txt + META[_p]["claim"]
     META[_p]["technique"] = TECH_PB
+
+# floors on the number of obligations generated per run (vacuity guard): about 70 % of the count on the tree of part 5
+_FLOORS = {"C01": 55, "C02": 50, "C03": 40, "C04": 130, "C05": 36, "C06": 64, "C07": 120, "C08": 235, "C09": 200, "C10": 185, "C11": 78, "C12": 78,
+           "C13": 38, "C14": 75, "C15": 46, "C16": 14, "C17": 12, "C18": 295, "C19": 190, "C20": 225}
+for _p, _n in _FLOORS.items():
+    META[_p]["min_obligations"] = _n
